@@ -105,6 +105,11 @@ pub trait Case {
 pub struct Ctx {
     pub evaluated: u64,
     pub deadline: Instant,
+    /// `search <prop> --selftest <seed>`: additionally feed the json of every
+    /// evaluated case (written to text and parsed back) to `--replay`'s code
+    /// path and report the first case that replay refuses or judges
+    /// differently. Guarantees that every FOUND that search can print replays.
+    pub selftest: bool,
 }
 
 impl Ctx {
@@ -115,7 +120,26 @@ impl Ctx {
     /// evaluate one case; Some(json) if it violates the property
     pub fn eval<C: Case>(&mut self, c: &C) -> Option<J> {
         self.evaluated += 1;
-        eval_case(c)
+        let found = eval_case(c);
+        if self.selftest {
+            let mut o = vec![("property".to_string(), J::s(c.prop()))];
+            o.extend(c.fields());
+            let text = J::Obj(o).to_string();
+            let verdict = json::parse(&text).and_then(|j| replay(c.prop(), &j));
+            let agrees = match (&verdict, &found) {
+                (Ok(a), b) => a.is_some() == b.is_some(),
+                (Err(_), _) => false,
+            };
+            if !agrees {
+                return Some(J::Obj(vec![
+                    ("selftest".into(), J::s("replay disagrees with search on this input")),
+                    ("search".into(), J::s(if found.is_some() { "FOUND" } else { "no violation" })),
+                    ("replay".into(), J::Str(format!("{verdict:?}"))),
+                    ("input".into(), J::Str(text)),
+                ]));
+            }
+        }
+        found
     }
 }
 
@@ -211,7 +235,9 @@ fn main() {
             }
         }
     } else {
-        let Ok(seed) = args[2].parse::<u64>() else { usage() };
+        let selftest = args[2] == "--selftest";
+        let seed_text = if selftest { args.get(3).map_or("1", String::as_str) } else { args[2].as_str() };
+        let Ok(seed) = seed_text.parse::<u64>() else { usage() };
         let budget = std::env::var("SEARCH_BUDGET_SECS")
             .ok()
             .and_then(|s| s.parse::<u64>().ok())
@@ -219,6 +245,7 @@ fn main() {
         let mut ctx = Ctx {
             evaluated: 0,
             deadline: Instant::now() + Duration::from_secs(budget),
+            selftest,
         };
         match search(prop, seed, &mut ctx) {
             Some(f) => println!("FOUND {f}"),
